@@ -1,0 +1,35 @@
+//go:build verif
+
+package gracefulswitch
+
+// Contracts checked by /verif (contract-based deductive verification).
+// This file is comment-only; it is compiled only with -tags=verif.
+
+//@ import connectivity "google.golang.org/grpc/connectivity"
+
+// ---- C33: graceful switch between LB policies ---------------------------------------------------
+//
+// gsb.mu protects which wrapper is current / pending. A state update from a
+// wrapper is judged and acted upon inside one critical section: the test "this
+// wrapper is (still) the current policy" and the hand-over of its state to the
+// channel cannot be separated by a swap or a Close.
+
+//@ monitor Balancer.mu protects balancerCurrent, balancerPending, closed
+
+//@ func (*balancerWrapper).UpdateState
+//@   prop C33
+//@   requires bw != nil && bw.gsb != nil
+//@   assert at return 1 bw.lastState == state && bw != bw.gsb.balancerCurrent && bw != bw.gsb.balancerPending && ncalls("UpdateState") == 0 && ncalls("swap") == 0
+//@   assert at call swap#1 arg0 == bw.gsb && bw == bw.gsb.balancerCurrent && bw.gsb.balancerPending != nil && state.ConnectivityState != connectivity.Ready && bw.lastState == state && ncalls("UpdateState") == 0
+//@   assert at call UpdateState#1 recv == bw.gsb.cc && bw == bw.gsb.balancerCurrent && (state.ConnectivityState == connectivity.Ready || bw.gsb.balancerPending == nil) && arg0 == state && bw.lastState == state && ncalls("swap") == 0
+//@   assert at call swap#2 arg0 == bw.gsb && bw == bw.gsb.balancerPending && bw != bw.gsb.balancerCurrent && (state.ConnectivityState != connectivity.Connecting || bw.gsb.balancerCurrent.lastState.ConnectivityState != connectivity.Ready) && ncalls("UpdateState") == 0
+//@   assert at return end bw == bw.gsb.balancerPending || ncalls("swap") == 1
+
+// swap: the pending policy's latest state is handed to the channel first, then
+// it becomes current and the pending slot is emptied; the old current policy is
+// closed asynchronously.
+//@ func (*Balancer).swap
+//@   prop C33
+//@   requires gsb != nil && gsb.balancerPending != nil
+//@   assert at call UpdateState#1 recv == gsb.cc && arg0 == gsb.balancerPending.lastState && gsb.balancerPending != nil
+//@   assert at call Add#1 gsb.balancerPending == nil && ncalls("UpdateState") == 1
